@@ -1,0 +1,52 @@
+//go:build verif
+
+// Contracts for the deductive verifier in /verif (comment-only; see /verif/DESIGN.md).
+// This file is compiled only with -tags verif and contributes nothing but the package clause.
+
+package cmd
+
+// The write-in-place handler reached through its interface. Assumed here, proved for the implementation
+// (*writeInPlaceHandlerImpl in pkg/yqlib) under the precondition that it was created for the target file.
+
+//@ func invoke writeInPlaceHandler.CreateTempFile
+//@   trusted
+//@   modifies tmpPath, tmpMode, targetMode
+//@   ensures targetState == old(targetState) && targetMode == old(targetMode)
+
+//@ func invoke writeInPlaceHandler.FinishWriteInPlace
+//@   trusted
+//@   modifies targetState, targetMode
+//@   ensures implies(!evaluatedSuccessfully, targetState == old(targetState) && targetMode == old(targetMode) && result == nil)
+//@   ensures implies(evaluatedSuccessfully && result == nil, targetState == 1)
+//@   ensures implies(result != nil, targetState == old(targetState))
+
+// the deferred finisher: the target is only ever touched when the command has not failed, and then through
+// FinishWriteInPlace(completedSuccessfully)
+
+//@ func evaluateSequence$1
+//@   props C12 C19
+//@   noframe
+//@   assume writeInPlaceHandler != nil
+//@   modifies targetState, targetMode
+//@   ensures @failed-command-leaves-target implies(old(cmdError) != nil, cmdError == old(cmdError) && targetState == old(targetState))
+//@   ensures @finish-result-reported implies(cmdError != nil, targetState == old(targetState))
+//@   ensures @not-completed-leaves-target implies(!completedSuccessfully, targetState == old(targetState))
+
+//@ func evaluateAll$1
+//@   props C12 C19
+//@   noframe
+//@   assume writeInPlaceHandler != nil
+//@   modifies targetState, targetMode
+//@   ensures @failed-command-leaves-target implies(old(cmdError) != nil, cmdError == old(cmdError) && targetState == old(targetState))
+//@   ensures @finish-result-reported implies(cmdError != nil, targetState == old(targetState))
+//@   ensures @not-completed-leaves-target implies(!completedSuccessfully, targetState == old(targetState))
+
+//@ func evaluateSequence
+//@   props C12 C19
+//@   noframe
+//@   ensures @failure-leaves-file implies(cmdError != nil, targetState == old(targetState))
+
+//@ func evaluateAll
+//@   props C12 C19
+//@   noframe
+//@   ensures @failure-leaves-file implies(cmdError != nil, targetState == old(targetState))
